@@ -142,6 +142,8 @@ pub enum ROp {
     X { id: String },
     /// `no_record` block
     NR(Vec<ROp>),
+    /// `no_record` invoked through the *other* cache of the world (the ops still use this cache)
+    NRO(Vec<ROp>),
     /// helper thread
     TH(Vec<ROp>),
     /// through the other cache of the world
@@ -667,6 +669,25 @@ pub fn interp(cache: AnyCache, tag: u32, ops: &[ROp], out: &mut String) -> Resul
                 out.push_str(&format!("NR[{inner}];"));
                 r?;
             }
+            ROp::NRO(sub) => {
+                let mut inner = String::new();
+                let mut body = || {
+                    let g = push_frame(Frame::Mute);
+                    if recording_token() != 0 {
+                        violation("a dependency record is installed inside a no_record block entered through another cache".to_string());
+                    }
+                    let r = interp(cache, tag, sub, &mut inner);
+                    g.finish(true, None);
+                    r
+                };
+                let r = match other_tag(tag).and_then(cache_of) {
+                    Some(other) if sub.len() % 2 == 0 => other.as_any_cache().no_record(&mut body),
+                    Some(other) => other.no_record(&mut body),
+                    None => cache.no_record(&mut body),
+                };
+                out.push_str(&format!("NR[{inner}];"));
+                r?;
+            }
             ROp::TH(sub) => {
                 let mut inner = String::new();
                 let r = match cache_of(tag) {
@@ -912,6 +933,12 @@ impl ModelCtx<'_> {
                     }
                 }
                 ROp::NR(sub) => {
+                    let mut inner = String::new();
+                    let r = self.interp(tag, sub, &mut inner);
+                    out.push_str(&format!("NR[{inner}];"));
+                    r?;
+                }
+                ROp::NRO(sub) => {
                     let mut inner = String::new();
                     let r = self.interp(tag, sub, &mut inner);
                     out.push_str(&format!("NR[{inner}];"));
